@@ -134,6 +134,11 @@ class ComponentModel:
                 x = f.attrs.get(k)
                 if x is None:
                     continue
+                ob = f.heap.get(x.obj) if x.obj is not None else None
+                if ob is not None and ob.stored and x.dom:
+                    # element stores since the binding: the heap cell is authoritative, the
+                    # facts attached to the bound value describe the array before those stores
+                    x = x.with_(dom={dk: (dv if ob.dom.get(dk, dv) == dv else None) for dk, dv in x.dom.items()})
                 v = x if v is None else join(v, x)
             attrs[k] = v
         heap = {}
